@@ -60,6 +60,15 @@ T = {
  "C07": ("refmodel", "exploration", "runtime monitor: (score,key)-ordered reference model + skip-list structural walker + node-identity check, bounded-exhaustive over states x layouts x arguments, plus transaction histories",
          "All 625 states x several random skip-list layouts x every operation and argument; walker (order, spans==ranks, backward chain, Dict<=>list) after every mutation; every returned node must be the registered member.",
          "Finite scores only; rank semantics as documented on GetByRankRange (1-based, negative from the end, clamped)."),
+ "C14": ("conc", "exploration", "runtime monitor under the Go race detector: concurrent View/Update workloads with yields injected at the verif hook points; client-boundary transaction histories checked for strict serializability with porcupine; snapshot, sequence-key, panic and lock-deadlock oracles",
+         "2-16 goroutines, 1-3 databases open in one process (all index modes), yield probability 0/0.05/0.3; transaction = one porcupine operation, partitioned per database and shard, unique written values; race reports are collected with halt_on_error=0 and deduplicated by outermost entry-point pair.",
+         "Every schedule is sampled, not enumerated; the race detector sees only executed paths. Transactions are shaped so that C13's known finding (reads do not see the transaction's own writes) cannot influence the verdict. A case that exceeds its wall-clock watchdog is inconclusive unless the goroutine dump shows every library goroutine parked on the database lock."),
+ "C17": ("conc", "exploration", "runtime monitor under the Go race detector: the C14 workload and oracles with 1-2 goroutines calling Merge in a loop; Merge is not an operation of the sequential model, so it has to be invisible",
+         "RAM index modes with segments of 150-500 bytes so that every Merge has files to work on; yields at Merge's hook points (per entry, before rewrite, before remove) and inside Commit; thousands of merges overlap the transactions of one run.",
+         "KV and sets only (sequential Merge preserves those; lists are C15's known finding). The defect found by this check (Merge ran without the database lock) is fixed in /repo (c6fe1e5)."),
+ "C18": ("conc", "exploration", "runtime monitor under the Go race detector: Backup while 0-8 writers execute a script indexed by an in-database sequence key; the backup is opened with the real Open and fully observed",
+         "The state after n commits is the deterministic S(n); the opened backup must equal S(n_b) for its own sequence value n_b, and n_b must lie between the commits returned when Backup was called and the commits started when it returned; all index modes and RWModes.",
+         "SPop (random by design) is left out of the script."),
  "C01": ("refmodel", "exploration", "runtime monitor: reference-model comparator (ordered map with TTL) over generated histories + B+ tree structural walker",
          "Thousands of seeded histories (small segments, shared-prefix keys, TTL on both sides of expiry, reopen points) run against the real DB; every read result is compared with an independent model. Held = on the executions produced.",
          "Trusts the reference model's reading of the documented semantics; expiry cases are kept >=10^6 s from the boundary."),
